@@ -287,7 +287,7 @@ impl C05 {
       gen_tree(&mut rng, &cfg, &mut ids, cfg.max_depth, &mut budget)
     };
     let text = content(&inner).0;
-    let n_phases = 1 + rng.usize_below(4);
+    let n_phases = 1 + rng.usize_below(if crate::rng::deep() { 6 } else { 4 });
     let mut phases = vec![];
     let mut calls_so_far: Vec<ReplCall> = vec![];
     // swarm knob: 12% of the runs use many replacements on very few distinct
@@ -308,7 +308,7 @@ impl C05 {
     for ph in 0..n_phases {
       let n_calls = if many {
         if ph == 0 { many_budget * 2 / 3 } else if ph == 1 { many_budget - many_budget * 2 / 3 } else { rng.usize_below(3) }
-      } else if calls_so_far.len() >= 12 {
+      } else if calls_so_far.len() >= (if crate::rng::deep() { 20 } else { 12 }) {
         0
       } else {
         rng.usize_below(5)
